@@ -286,7 +286,7 @@ MANIFEST_TEXT["C10"] = {
 PLAN["C02"] = {
     "pkg": "c02",
     "tests": [
-        {"name": "TestPersistenceTransparent", "quick": (9600, 16), "thorough": (480000, 16)},
+        {"name": "TestPersistenceTransparent", "quick": (20000, 16), "thorough": (480000, 16)},
     ],
     "budget": {"quick": 600, "thorough": 5400},
     "rule": SCENARIO_RULE + "Every step carries a drawn 'restart here' bit. Oracle: (a) after every sprint marshal(read(marshal(s))) == "
